@@ -1081,6 +1081,8 @@ class Interp:
 
     # ---- arithmetic -------------------------------------------------------
     def binop(self, op, a, b):
+        if a is None or b is None:
+            raise AbsRaise("TypeError", f"unsupported operand type(s): NoneType")
         if isinstance(op, ast.Add):
             if isinstance(a, DT) and isinstance(b, TD):
                 self.ops_seen.add("date+timedelta")
@@ -1146,7 +1148,8 @@ class Interp:
             # date + timedelta with a time part: Python drops the time part
             self.ops_seen.add("date+timedelta(seconds) drops time")
             return DT("date", None, term, None, tag="seconds-dropped")
-        return DT(d.kind, None if td.mag != "zero" else d.rank, term, d.zone)
+        return DT(d.kind, None if td.mag != "zero" else d.rank, term, d.zone,
+                  tag=d.tag if d.tag == "seconds-dropped" else None)
 
     # ---- calls -------------------------------------------------------------
     def call(self, f, args, kwargs):
@@ -1294,8 +1297,11 @@ class Interp:
                 env.locals[k] = v
             if isinstance(node, ast.Lambda):
                 return self.eval(node.body, env)
-            is_gen = any(isinstance(n, (ast.Yield, ast.YieldFrom))
-                         for n in _walk_fn(node))
+            is_gen = _GEN_CACHE.get(id(node))
+            if is_gen is None:
+                is_gen = any(isinstance(n, (ast.Yield, ast.YieldFrom))
+                             for n in _walk_fn(node))
+                _GEN_CACHE[id(node)] = is_gen
             if is_gen:
                 env.yields = []
             try:
@@ -1741,6 +1747,9 @@ class Env:
         if name in ("True", "False", "None"):
             return {"True": True, "False": False, "None": None}[name]
         raise Unsupported(f"name {name} in {self.module.name}")
+
+
+_GEN_CACHE = {}
 
 
 def _walk_fn(node):
